@@ -34,8 +34,8 @@ impl TryFrom<String> for BuildpackVersion {
         match value
             .split('.')
             .map(|s| {
-                // The spec forbids redundant leading zeros.
-                if s.starts_with('0') && s != "0" {
+                // The spec forbids redundant leading zeros and signs (`u64::from_str` accepts a leading `+`).
+                if (s.starts_with('0') && s != "0") || !s.bytes().all(|b| b.is_ascii_digit()) {
                     None
                 } else {
                     s.parse().ok()
